@@ -6,6 +6,7 @@ package main
 
 import (
 	"bufio"
+	"os"
 	"fmt"
 	"io"
 	"os/exec"
@@ -129,7 +130,12 @@ func (s *Solver) Check(query string, timeoutMs int, getVals []string) (Verdict, 
 	if isZ3 {
 		// push/pop scopes declarations too and is ~10x cheaper than (reset)
 		if s.nq > 1 {
-			sb.WriteString("(pop 1)\n")
+			if s.nq%64 == 0 {
+				// z3 slows down as popped scopes accumulate: start afresh regularly
+				sb.WriteString("(reset)\n")
+			} else {
+				sb.WriteString("(pop 1)\n")
+			}
 		}
 		fmt.Fprintf(&sb, "(set-option :timeout %d)\n(push 1)\n", timeoutMs)
 	} else {
@@ -141,9 +147,15 @@ func (s *Solver) Check(query string, timeoutMs int, getVals []string) (Verdict, 
 	fmt.Fprintf(&sb, "(echo \"%s\")\n", marker)
 	t0 := time.Now()
 	lines, err := s.roundTrip(sb.String(), marker, time.Duration(timeoutMs)*time.Millisecond+20*time.Second)
+	if dd := os.Getenv("VERIF_DUMP_SLOW"); dd != "" && time.Since(t0) > 50*time.Millisecond {
+		os.WriteFile(fmt.Sprintf("%s/q_%d_%d.smt2", dd, os.Getpid(), s.nq), []byte(sb.String()+fmt.Sprintf("; took %v getvals=%d\n", time.Since(t0), len(getVals))), 0o644)
+	}
 	if err != nil {
 		s.Close()
 		s.stats.add(Unknown, time.Since(t0))
+		if dd := os.Getenv("VERIF_DUMP_SLOW"); dd != "" {
+			os.WriteFile(fmt.Sprintf("%s/FAIL_%d_%d.smt2", dd, os.Getpid(), s.nq), []byte(sb.String()+"; "+err.Error()), 0o644)
+		}
 		return Unknown, nil, err.Error()
 	}
 	v := Unknown
@@ -175,7 +187,11 @@ func (s *Solver) Check(query string, timeoutMs int, getVals []string) (Verdict, 
 		}
 		q.WriteString("))\n")
 		fmt.Fprintf(&q, "(echo \"%s\")\n", marker2)
+		t1 := time.Now()
 		ls, err := s.roundTrip(q.String(), marker2, 30*time.Second)
+		if dd := os.Getenv("VERIF_DUMP_SLOW"); dd != "" && time.Since(t1) > 200*time.Millisecond {
+			os.WriteFile(fmt.Sprintf("%s/GV_%d_%d.smt2", dd, os.Getpid(), s.nq), []byte(sb.String()+q.String()+fmt.Sprintf("; getvalue took %v err=%v\n", time.Since(t1), err)), 0o644)
+		}
 		if err != nil {
 			s.Close()
 			s.stats.add(Unknown, time.Since(t0))
